@@ -563,6 +563,49 @@ func GenLeaf(r *hx.Rng, kind string) []byte {
 		return Box(kind, Cat(vf(0, 0), lang))
 	case "kind":
 		return Box(kind, Cat(vf(0, 0), append(r.Bytes(r.Intn(9), []byte("urn:dash")), 0), append(r.Bytes(r.Intn(5), []byte("main")), 0)))
+	case "vttC", "vlab", "ctim", "iden", "sttg", "payl", "vtta":
+		return Box(kind, r.Bytes(r.Intn(12), []byte("WEBVTT line:0\x00")))
+	case "vtte":
+		return Box(kind, nil)
+	case "vsid":
+		return Box(kind, U32(r32(r)))
+	case "data":
+		return Box(kind, Cat(U32(uint32(r.Pick(1, 1, 1, 0, 13, 21, int(r32(r)&0xffff)))), U32(uint32(r.Pick(0, 0, 0, 0x656e))), r.Bytes(r.Intn(16), nil)))
+	case "mime":
+		ct := r.Bytes(r.Range(1, 12), []byte("text/plain\x00"))
+		if r.Bool() {
+			ct = append(ct, 0)
+		}
+		return Box(kind, Cat(vf(byte(r.Intn(2)), r32(r)&0xffffff), ct))
+	case "wvtt":
+		body := Cat(make([]byte, 6), U16(uint16(r.Intn(3))))
+		if r.Intn(4) == 0 {
+			body = Cat(r.Bytes(6, nil), U16(uint16(r32(r))))
+		}
+		for _, k := range []string{"vttC", "vlab", "btrt", "free"} {
+			if r.Intn(3) > 0 {
+				body = append(body, GenLeaf(r, k)...)
+			}
+		}
+		return Box(kind, body)
+	case "meta":
+		hd := Box("hdlr", Cat(vf(0, 0), U32(0), []byte("mdir"), make([]byte, 12), r.Bytes(r.Intn(4), []byte("ab")), []byte{0}))
+		kids := Cat(hd, Box("ilst", Box("\xa9too", GenLeaf(r, "data"))))
+		if r.Intn(3) == 0 {
+			kids = append(kids, GenLeaf(r, "free")...)
+		}
+		if r.Bool() {
+			return Box(kind, kids) // QuickTime form
+		}
+		return Box(kind, Cat(vf(byte(r.Intn(2)), r32(r)&0xffffff), kids))
+	case "vttc":
+		var body []byte
+		for _, k := range []string{"vsid", "iden", "ctim", "sttg", "payl"} {
+			if r.Intn(3) > 0 {
+				body = append(body, GenLeaf(r, k)...)
+			}
+		}
+		return Box(kind, body)
 	}
 	return Box("zzzz", r.Bytes(r.Intn(12), nil))
 }
@@ -613,7 +656,8 @@ var GenKinds = []string{"ftyp", "styp", "free", "skip", "mdat", "mfhd", "tfhd", 
 	"stsc", "stsz", "stco", "stss", "co64", "sdtp", "ctts", "elst", "saiz", "saio", "sbgp", "prft", "tenc", "frma", "vmhd",
 	"smhd", "nmhd", "sthd", "mfro", "mehd", "tfra", "pssh",
 	"url ", "avcC", "btrt", "pasp", "colr", "clap", "schm", "cslg", "stsd", "dref", "avc1", "avc3", "hvc1", "hev1", "encv", "mp4a", "enca",
-	"senc", "emsg", "elng", "kind", "hvcC", "subs", "uuid", "sgpd"}
+	"senc", "emsg", "elng", "kind", "hvcC", "subs", "uuid", "sgpd",
+	"vttC", "vlab", "ctim", "iden", "sttg", "payl", "vtta", "vtte", "vsid", "data", "mime", "wvtt", "meta", "vttc"}
 
 // Exhaustive returns well-formed boxes covering EVERY combination of the optional-field flag bits of the
 // boxes that have them (trun: 6 bits x version 0/1 x 0,1,3 samples; tfhd: 7 bits; tfdt, sidx, mvhd, tkhd,
